@@ -560,9 +560,15 @@ type stepLog struct {
 }
 
 // quiesce steps the wallet until the updater would wait for a new block.
-func (e *env) quiesce(w *wallet.Wallet) (stepLog, error) {
+func (e *env) quiesce(w *wallet.Wallet) (stepLog, error) { return e.steps(w, -1) }
+
+// steps lets the updater take at most max actions (max < 0: until it would wait).
+func (e *env) steps(w *wallet.Wallet, max int) (stepLog, error) {
 	var l stepLog
 	for i := 0; ; i++ {
+		if max >= 0 && i >= max {
+			return l, nil
+		}
 		r, err := w.VerifStep()
 		if err != nil {
 			return l, err
